@@ -74,6 +74,9 @@ func (f *RassocIf) Call(s *slip.Scope, args slip.List, depth int) (found slip.Ob
 			slip.TypePanic(s, depth, "keyword", sym, ":key")
 		}
 	}
+	if pos < len(args) {
+		slip.ErrorPanic(s, depth, "extra arguments that are not keyword and value pairs")
+	}
 	d2 := depth + 1
 	var k slip.Object
 	for _, a := range alist {
